@@ -186,4 +186,10 @@ def bitEval (case : Json) : Json :=
           Json.mkObj [("bits", bitsToString bits), ("panic", match p with | some k => Json.str (panicName k) | none => Json.null)]
       | _, _ => Json.mkObj [("outside", true)]).toArray)]
 
+/-- the verdict of the typing judgement the compiler model induces (`Bit.progTyped`), per function -/
+def bitCheck (case : Json) : Json :=
+  let prog := progFromJson (field case "prog")
+  Json.mkObj [("typed", Bit.progTyped prog),
+    ("ill", Json.arr ((prog.fns.filter fun d => !Bit.fnTyped prog d).map fun d => Json.str d.name).toArray)]
+
 end GVD
